@@ -173,6 +173,25 @@ fn configs(thorough: bool) -> Vec<Config> {
         ],
         coupled: false,
     });
+    // resources whose values are not 0..n-1: a range starting at 1, a list of names
+    out.push(Config {
+        name: "labels",
+        desc: ResourceDescriptor::new(
+            vec![ResourceDescriptorItem::range("cpus", 1, 4),
+                 ResourceDescriptorItem { name: "gpus".into(), kind: ResourceDescriptorKind::List { values: vec!["a".into(), "b".into(), "c".into()] } }],
+            Default::default(),
+        ),
+        names: vec!["cpus", "gpus"],
+        requests: vec![
+            rq(&[("cpus", "compact", 10_000)]),
+            rq(&[("cpus", "compact", 20_000)]),
+            rq(&[("cpus", "compact", 5_000)]),
+            rq(&[("gpus", "compact", 10_000)]),
+            rq(&[("cpus", "compact", 10_000), ("gpus", "compact", 10_000)]),
+            rq(&[("gpus", "all", 0)]),
+        ],
+        coupled: false,
+    });
     // very unequal groups
     out.push(Config {
         name: "groups26",
@@ -233,6 +252,34 @@ fn execute(c: &Config, path: &[Op]) -> SimAllocator {
         }
     }
     a
+}
+
+/// The value a task has to be told for index `idx` of resource number `r`, straight from the worker's resource description:
+/// the `idx`-th listed value of a list / of the groups in their order; the number itself for a range.
+fn expected_label(desc: &ResourceDescriptor, r: usize, idx: u32) -> String {
+    match &desc.resources[r].kind {
+        ResourceDescriptorKind::List { values } => values.get(idx as usize).cloned().unwrap_or_else(|| "?".into()),
+        ResourceDescriptorKind::Groups { groups } => {
+            groups.iter().flatten().nth(idx as usize).cloned().unwrap_or_else(|| "?".into())
+        }
+        ResourceDescriptorKind::Range { .. } => idx.to_string(),
+        ResourceDescriptorKind::Sum { .. } => idx.to_string(),
+    }
+}
+
+fn with_expected_labels(desc: &ResourceDescriptor, mut alloc: Value) -> Value {
+    if let Some(ras) = alloc.as_array_mut() {
+        for ra in ras {
+            let r = ra["r"].as_u64().unwrap_or(0) as usize;
+            if let Some(idx) = ra["idx"].as_array_mut() {
+                for x in idx {
+                    let i = x["i"].as_u64().unwrap_or(0) as u32;
+                    x["expect"] = json!(expected_label(desc, r, i));
+                }
+            }
+        }
+    }
+    alloc
 }
 
 fn canon(a: &SimAllocator) -> String {
@@ -342,7 +389,7 @@ pub fn main(args: &[String]) -> i32 {
                                 }
                                 json!({"d": c.name, "coupled": c.coupled, "ps0": ps0, "pre": pre, "live_pre": live_pre, "op": "alloc",
                                        "rq": rq_json(&c, r), "enabled": enabled, "granted": h.is_some(),
-                                       "alloc": h.map(|h| a.allocation_json(h)).unwrap_or(json!([])),
+                                       "alloc": h.map(|h| with_expected_labels(&c.desc, a.allocation_json(h))).unwrap_or(json!([])),
                                        "post": a.state_json(), "live_post": live_json(&a), "pan": 0, "ploc": ""})
                             }
                             Err(_) => {
